@@ -57,13 +57,16 @@ class World:
         self.seed0 = int(r.integers(1, 1000))      # small: seeds are unary naturals in the extracted model
         # position pool: base -> per-axis coordinates in [1, 6] (so that the np.allclose window is >= 1e-5)
         self.bases = []
-        for b in range(4):
+        for b in range(3):
             n = 2 + int(r.integers(0, 3))
             while True:
                 ax = [np.sort(r.uniform(1.0, 6.0, n)) for _ in range(self.dim)]
                 if all(len(o[0]) != n or max(np.max(np.abs(o[d] - ax[d])) for d in range(self.dim)) > 0.05 for o in self.bases):
                     break
             self.bases.append(ax)
+        # base 3: base 2 shifted by 3e-4 — different positions (5x above the largest np.allclose tolerance 1e-8 + 1e-5*6 here),
+        # but close enough that a sloppier comparison would confuse them
+        self.bases.append([a + 3e-4 for a in self.bases[2]])
         # version tables (filled while the history runs, keyed by the MODEL's version numbers)
         self.cond = {}
         self.model = {}
@@ -667,7 +670,7 @@ def run(ctx, only_history=None):
             ctx.count(("corpus", fn), hist=dict(stage="corpus"))
             hr.run(rec["history"]["wseed"], rec["history"]["rows"], origin="corpus/" + fn)
         # ---- random histories
-        n_hist = 220 if thorough else 60
+        n_hist = 1200 if thorough else 160
         for h in range(n_hist):
             wseed = int(rng.integers(1, 2 ** 31))
             allow_jit = rng.random() < 0.15
@@ -685,9 +688,9 @@ def run(ctx, only_history=None):
             hr.run(wseed, rows)
         C.log("[C07]   corpus + %d histories: %.1fs" % (n_hist, time.time() - t0))
         # ---- probes of the statement
-        formula_probe(ctx, rng, drv, tie_broken, 12 if thorough else 5)
-        honour_probe(ctx, rng, drv, 4 if thorough else 1)
-        farfield_probe(ctx, rng, 4 if thorough else 2)
+        formula_probe(ctx, rng, drv, tie_broken, 40 if thorough else 8)
+        honour_probe(ctx, rng, drv, 8 if thorough else 2)
+        farfield_probe(ctx, rng, 10 if thorough else 3)
         window_probe(ctx, rng)
         C.log("[C07]   probes done: %.1fs" % (time.time() - t0))
     finally:
